@@ -14,6 +14,8 @@
 # ==============================================================================
 
 
+import dataclasses
+
 import mujoco
 import numpy as np
 import warp as wp
@@ -665,7 +667,9 @@ def set_const_0(m: types.Model, d: types.Data, restore: bool = True):
 
   smooth.kinematics(m, d)
   smooth.com_pos(m, d)
-  smooth.camlight(m, d)
+  # the camera / light references are defined with all cameras and lights in FIXED mode (as mj_setConst)
+  m_fixed = dataclasses.replace(m, cam_mode=wp.zeros_like(m.cam_mode), light_mode=wp.zeros_like(m.light_mode))
+  smooth.camlight(m_fixed, d)
   smooth.flex(m, d)
   smooth.tendon(m, d)
   smooth.crb(m, d)
